@@ -228,6 +228,8 @@ CMD_TEXTS = [
 
 
 def _run_cmd_case(ctx, case) -> F.Outcome:
+    if case[1] == "whitelist-lookalike":
+        return _run_whitelist_lookalike(ctx, case)
     _, name, text, mode = case
     day = H.DEFAULT_DAY
     out = F.Outcome()
@@ -302,6 +304,46 @@ def _run_cmd_case(ctx, case) -> F.Outcome:
     return out
 
 
+BROKEN = "# t\n\n- 240101#0A ok note\n-- broken\n- another\n"
+CLEAN = "# t\n\n- 240102#0B fine note\n"
+
+
+def _run_whitelist_lookalike(ctx, case) -> F.Outcome:
+    """A whitelisted broken page must not excuse another page whose path merely
+    contains, or is contained in, the whitelisted path."""
+    _, _, wl_path, new_path, mode = case
+    day = H.DEFAULT_DAY
+    out = F.Outcome()
+    zd = Z.make_zdir({wl_path: BROKEN, new_path: CLEAN, "good.zo": "# g\n\n- 240103#0C good\n"})
+    try:
+        r = Z.db_create(zd, day, force=True)  # whitelists wl_path only
+        if not Z.cli_ok(r):
+            raise H.HarnessError("whitelist setup failed: " + r.err[-300:])
+        wl = (zd / ".zorg" / "error_file_whitelist.txt").read_text().split("\n")
+        if wl != [wl_path]:
+            raise H.HarnessError(f"unexpected whitelist after setup: {wl}")
+        (zd / new_path).write_text(BROKEN.replace("0A", "0D"))
+        r = Z.db_create(zd, day) if mode == "create" else Z.db_reindex(zd, day)
+        idx = IR.read_index(zd)
+        wl_after = (zd / ".zorg" / "error_file_whitelist.txt").read_text().split("\n")
+        problem = None
+        if Z.cli_ok(r):
+            problem = (f"{mode}-accepted-newly-broken-page-next-to-whitelisted-lookalike",
+                       {"whitelisted": wl_path, "newly_broken": new_path, "whitelist_after": wl_after,
+                        "indexed": {p: len(v["notes"]) for p, v in idx["pages"].items()}})
+        elif new_path in wl_after:
+            problem = ("newly-broken-page-whitelisted-without-force", {"whitelist_after": wl_after})
+        out.obs = H.digest([Z.cli_ok(r), wl_after])
+        out.nontrivial = H.digest(case)
+        if problem:
+            out.ok = False
+            out.sig = "command:" + problem[0]
+            out.detail = problem[1]
+    finally:
+        Z.drop(zd)
+    return out
+
+
 def _cases(ctx):
     quick = ctx.quick
     sigma = SIGMA_QUICK if quick else SIGMA_FULL
@@ -335,6 +377,12 @@ def _cases(ctx):
         for pre in ("- ", "o ", "o P1 ", "- 240101 ", "- x ", "# "):
             for post in ("", " widgets"):
                 flat.append(["digits", pre + dw + post])
+    # bracket / '::' shapes the grammar accepts as (inline) properties
+    for w in ("[a::b::c]", "[a::b/c::d]", "[a::b c::d]", "[a:: b]", "[a::b]", "[a:: b c d]", "[a::b:c]", "a::b::c",
+              "[a::[b]]", "[[a::b]]", "[a::]", "[::b]", "a::", "::b", "[a:: b::c d]", "[#a::b]", "[^a::b]", "((a::b))",
+              "'[a::b::c]'", "\"a::b::c\"", "[k:: v] [k:: w]", "https://x.y/a::b"):
+        for pre in ("- ", "o P1 240101#0A ", "# ", "# t\n\n################################ "):
+            flat.append(["digits", pre + w + " tail" if not pre.endswith("# ") or True else pre + w])
     for bm in ("  * ", "    - ", "      + "):
         for body in ("k::", "k:: v", ":: v", "k::  *   * c", "::", "k::\n" + bm + "j:: w"):
             flat.append(["digits", "- a:: b\n" + bm + body])
@@ -343,9 +391,13 @@ def _cases(ctx):
     for name, text in CMD_TEXTS:
         for mode in ("create", "create-f", "reindex"):
             flat.append(["cmd", name, text, mode])
+    for wl_path, new_path in (("archive/journal.zo", "journal.zo"), ("journal.zo", "archive/journal.zo"),
+                              ("p10.zo", "p1.zo"), ("p1.zo", "p10.zo"), ("ab.zo", "b.zo"), ("a/b.zo", "a/b.zo.zo")):
+        for mode in ("create", "reindex"):
+            flat.append(["cmd", "whitelist-lookalike", wl_path, new_path, mode])
     return flat, {"deviation0": len(SEEDS), "deviation1": n_dev1 - len(SEEDS), "deviation2": n_dev2,
                     "token_strings_and_digit_words": n_texts - n_dev1 - n_dev2,
-                    "command_level": len(CMD_TEXTS) * 3, "sigma": len(sigma), "seeds_edited": len(seeds)}
+                    "command_level": len(CMD_TEXTS) * 3 + 12, "sigma": len(sigma), "seeds_edited": len(seeds)}
 
 
 def run(ctx: F.Ctx):
